@@ -4,7 +4,7 @@ from mc.props import rcommon
 ID = "C08"
 TITLE = "Resolution is online: later citations never change earlier groupings"
 TECHNIQUE = (
-    "explicit-state model checking of the real resolve_citations: all event sequences <= L over a 53-symbol citation-kind "
+    "explicit-state model checking of the real resolve_citations: all event sequences <= L over a 55-symbol citation-kind "
     "alphabet + BFS over canonical resolver states to fix-point (canon soundness checked) + extracted lists; oracle: resolve(prefix) == resolve(whole) restricted to the prefix for every parent/child pair of the enumeration tree (covers all prefixes by transitivity) and causality (non-full members follow their full citation)"
 )
 TECHNIQUE += "; also: long lists (a short head followed by 100-520 filler citations), every shorter prefix and the whole list re-resolved on the same objects, an oracle that normalises reporters from reporters-db (spelling, edition dates) rather than from the code's guess; sequences <= 3 over the core alphabet again under python -O"
